@@ -212,6 +212,7 @@ class Build:
         self.log = ""
         self.coqchk = None
         self.failed_literals = {}
+        self.model_missing = []   # model files (theories/, gen/) that did not compile
 
 
 NOTES = []   # translator remarks of this process (fail-closed groups), printed with the broken obligations
@@ -232,6 +233,11 @@ def regenerate():
                 # (and with it only the properties that depend on that area) stops compiling
                 NOTES.append(f"{script}: {ln}")
     return ok, "; ".join(msgs)
+
+
+def _vo_fresh(v):
+    vo = v[:-2] + ".vo"
+    return os.path.exists(vo) and os.path.getmtime(vo) >= os.path.getmtime(v)
 
 
 def failed_literals():
@@ -314,12 +320,16 @@ def build(prop, extra_targets=(), thorough=False):
         b.files = deps + ([pf] if files else [])
         targets = [f[:-2] + ".vo" for f in deps]
         if targets:
-            rc, out = _sh(["timeout", "1500", "make", "-j16"] + targets, cwd=COQ, timeout=1600)
+            # -k: a proof file that no longer compiles (a broken obligation) must not keep the model files from being built,
+            # the search for a failing input needs them
+            rc, out = _sh(["timeout", "1500", "make", "-k", "-j16"] + targets, cwd=COQ, timeout=1600)
             b.log += out
             if rc != 0:
                 m = re.findall(r'File "([^"]+)", line (\d+)[^\n]*\n((?:.*\n){0,8})', out)
                 detail = "; ".join(f"{f}:{l}" for f, l, _ in m[:3]) or "make failed"
                 b.broken.append((f"coq-build:{detail}", out[-2500:]))
+                b.model_missing = [f for f in deps if (f.startswith("theories/") or f.startswith("gen/"))
+                                   and not _vo_fresh(os.path.join(COQ, f))]
         if files:
             rc, out = _sh(["timeout", "600", "coqc"] + COQ_FLAGS + [pf], cwd=COQ, timeout=700)
             b.log += out
@@ -498,7 +508,7 @@ class Check:
 
     def model_available(self):
         """False when the model itself did not compile (then only the implementation-side predicate search can run)"""
-        return not any(k == "obligation" and n.startswith("coq-build") for k, n, _ in self.broken)
+        return not (self.build_info is not None and self.build_info.model_missing)
 
     # -- step 3/4 bookkeeping
     def count(self, stream, key, n=1):
